@@ -266,6 +266,8 @@ def judge_resp(ctx, recs, tag):
         cls = 'body' if rec['fields']['present'] else 'no-body'
         got = rec['result'].get('raised', 'none')
         fn = rec.get('fn', 'parse_response')
+        if rec['fields']['present'] and rec['fields']['body'].get('face_persistency') not in ('none', '=0', '=1', '=2'):
+            cls = 'unassigned-enum'           # a FacePersistency value the library's enum does not list
         ctx.violation('C17/%s/%s/%s' % (fn, cls, got if got != 'none' else 'wrong-fields'),
                       '%s on %s gave %s' % (fn, json.dumps(rec['fields']), json.dumps(rec['result'])),
                       {'kind': 'resp', 'rec': rec})
@@ -288,6 +290,8 @@ def stage_resp_b(ctx):
         ctx.evaluations += 1
         if got != c['expected']:
             cls = 'body' if c['fields']['present'] else 'no-body'
+            if c['fields']['present'] and c['fields']['body'].get('face_persistency') not in ('none', '=0', '=1', '=2'):
+                cls = 'unassigned-enum'
             g = got.get('raised', 'none')
             ctx.violation('C17/parse_response/%s/%s' % (cls, g if g != 'none' else 'wrong-fields'),
                           'parse_response on %s returned %s, expected %s' % (json.dumps(c['fields']), json.dumps(got),
@@ -512,8 +516,8 @@ def stage_a(ctx):
         else:
             cfgs.append((front, 'routes', consts(front, 5, ['a'], 2, 2, 4, ['r200', 'r403', 'nack'], [])))
         # a route declared while connected (one route before connecting, one later, two connections)
-        cfgs.append((front, 'late', consts(front, ctx.pick(4, 5), ['a'], ctx.pick(0, 1), 2, ctx.pick(3, 4), ['r200', 'nack'], [], late=['z'],
-                                             verbs=('register',))))
+        cfgs.append((front, 'late', consts(front, ctx.pick(3, 5), ['a'], ctx.pick(0, 1), 2, ctx.pick(2, 4), ctx.pick(['r200'], ['r200', 'nack']), [],
+                                             late=['z'], verbs=ctx.pick((), ('register',)))))
         # the wall clock may stand still while loop time passes
         cfgs.append((front, 'stall', consts(front, 2, ['a'], 0, 1, ctx.pick(1, 2), ['r200', 'r400'], [], stall=True)))
     cov = {}
